@@ -63,6 +63,9 @@ def generic_inputs(fd, seed=0, presentation="tensors"):
         return {"gammadown3": gam, "Kdown3": K, "alpha": alpha, "rho0": r, "press": press}
     if presentation == "partial":
         return {"gammadown3": gam, "Kdown3": K, "alpha": alpha, "betay": beta[1].copy(), "betaz": beta[2].copy(), "Tdown4": T}
+    if presentation == "nomatter":
+        # geometry only: no matter variable is supplied (an empty universe with, possibly, a cosmological constant)
+        return {"gammadown3": gam, "Kdown3": K, "alpha": alpha, "betaup3": beta}
     if presentation == "minimal":
         return {"gammadown3": gam, "Kdown3": K, "alpha": alpha, "rho": rho0 * (1 + eps)}
     raise ValueError(presentation)
